@@ -39,10 +39,19 @@ type dumper struct {
 	globals  map[string]J
 	external map[string]bool
 	skipFile string
+	opaqueID int
 }
 
 func (d *dumper) typeID(t types.Type) int {
 	t = types.Unalias(t)
+	if fmt.Sprintf("%T", t) == "*ssa.opaqueType" {
+		// go/ssa's internal placeholder types (range iterators, deferStack): not hashable by typeutil
+		if d.opaqueID == 0 {
+			d.opaqueID = len(d.types)
+			d.types = append(d.types, J{"k": "unknown", "name": "ssa.opaque", "s": t.String()})
+		}
+		return d.opaqueID
+	}
 	if v := d.tmap.At(t); v != nil {
 		return v.(int)
 	}
